@@ -504,7 +504,7 @@ pub fn e2e_case(rng: &mut Rng, ctx: &mut Ctx, idx: u64) {
         2 => Err(cs.build()),
         _ => Ok(r),
     });
-    let spec = CallSpec { id: id.clone(), shape, req_msgs: vec![Msg { data: vec![1], seq: 1, tag: String::new() }], req_meta: req_meta.clone(), req_pend: vec![], req_gaps_ms: vec![], timeout: None };
+    let spec = CallSpec { id: id.clone(), shape, req_msgs: vec![Msg { data: vec![1], seq: 1, tag: String::new() }], req_meta: req_meta.clone(), req_pend: vec![], req_gaps_ms: vec![], timeout: None, pingpong: None };
     let mut ex = Exec::new();
     let view = match ex.block_on(200_000, do_call(&mut client, &spec, None)) {
         Out::Done(v) => v,
